@@ -7,6 +7,9 @@ void dump_more_memory();
 void dump_more_msp430dis();
 void dump_more_riscv();
 void dump_more_symbols();
+void dump_more_det();
+void dump_more_util();
+void dump_more_macro();
 static void dump_more()
 {
   dump_more_cond();
@@ -14,5 +17,8 @@ static void dump_more()
   dump_more_msp430dis();
   dump_more_riscv();
   dump_more_symbols();
+  dump_more_det();
+  dump_more_util();
+  dump_more_macro();
 }
 #endif
